@@ -583,3 +583,41 @@ Proof.
   - destruct (session_allow_bulk (pc_version cfg) (pc_allow_bulk cfg)); apply Hit; [apply sync_bulk_next_closed | apply sync_next_next_closed].
   - destruct (session_allow_bulk (pc_version cfg) (pc_allow_bulk cfg)); apply Hit; [apply async_bulk_next_closed | apply async_next_next_closed].
 Qed.
+
+(* ------------------------------------------------------------------ programs: several iterators and calls on one session *)
+Lemma next_of_step cfg bulk : pc_policer cfg = true -> step_events_ok (next_of cfg bulk).
+Proof.
+  intros Hp. unfold next_of. rewrite Hp. destruct (pc_mode cfg), bulk;
+    [apply sync_bulk_step | apply sync_next_step | apply async_bulk_step | apply async_next_step].
+Qed.
+
+(* whatever the interleaving, reuse after an exception or abandonment: every request of the session is released by exactly
+   one consultation of its policer *)
+Theorem prog_policed cfg : pc_policer cfg = true ->
+  forall p its script evs outs, well_policed evs -> well_policed (fst (fst (run_prog cfg p its script evs outs))).
+Proof.
+  intros Hp p. induction p as [|c r IH]; intros its script evs outs Hev; cbn [run_prog].
+  - exact Hev.
+  - destruct c as [a|a|i].
+    + destruct a as [oid|oids|oid|oid req|oid]; try exact Hev;
+        (apply IH; apply well_policed_app; [exact Hev | apply session_policed; exact Hp]).
+    + destruct (new_iter cfg a) as [[e st]|] eqn:E; [|exact Hev].
+      apply IH. apply well_policed_app; [exact Hev|].
+      assert (He : exists o m, e = EvIter o m).
+      { unfold new_iter in E. destruct a as [oid|oids|oid|oid req|oid]; try discriminate.
+        - injection E as <- _. eauto.
+        - injection E as <- _. eauto.
+        - destruct (session_allow_bulk (pc_version cfg) (pc_allow_bulk cfg)); injection E as <- _; eauto. }
+      destruct He as (o & m & ->). apply WpIter, WpNil.
+    + destruct (nth_error its i) as [st|]; [|exact Hev].
+      pose proof (next_of_step cfg (it_bulk st) Hp (it_buf st) script) as Hs. cbv zeta in Hs.
+      destruct (next_of cfg (it_bulk st) (it_buf st) script) as [[[e o] buf'] script']. cbn [fst] in Hs.
+      apply IH. apply well_policed_app; [exact Hev|]. destruct Hs as [-> | Hq]; [apply WpNil | apply well_policed_one; exact Hq].
+Qed.
+
+(* an iterator's buffer is touched by its own next() only *)
+Lemma set_nth_other {A} (l : list A) i j x : i <> j -> nth_error (set_nth l i x) j = nth_error l j.
+Proof.
+  revert i j. induction l as [|y l IH]; intros i j H; destruct i, j; cbn; try reflexivity; try congruence.
+  apply IH. congruence.
+Qed.
